@@ -84,7 +84,7 @@ NODE_POOL = {"fillcolor": COLORS, "color": COLORS, "fontcolor": ["black", "navy"
              "shape": ["box", "oval", "octagon", "circle", "hexagon", "ellipse", "house"],
              "style": ["filled", "filled,rounded", "filled,dashed", "rounded,filled", "filled,bold"],
              "penwidth": ["0.5", "1.5", "3", "2.25"], "fontname": ["arial", "helvetica", "courier"],
-             "fontsize": ["8", "11", "14"], "margin": ["0.05", "0.2,0.1"], "label": ["custom lbl", "X", "a\\lb"],
+             "fontsize": ["8", "11", "14"], "margin": ["0.05", "0.2,0.1"], "label": ["custom lbl", "X", "a\\lb", "", ""],
              "tooltip": ["tip 1", "t"], "zzcustom": ["some value", "v2"], "x_note": ["v 1", "é"]}
 CLUSTER_POOL = {"fillcolor": COLORS, "color": COLORS, "style": ["filled", "filled,rounded", "dashed"],
                 "penwidth": ["0.5", "1.5", "3"], "fontname": ["arial", "courier"], "fontcolor": ["black", "navy"],
@@ -239,7 +239,7 @@ def gen_case(rng, malformed=None):
         desc = gen_big(rng)
     else:
         desc = gen.gen_system(rng, max_nodes=rng.choice([6, 12, 24]), p_group=rng.choice([0.0, 0.3, 0.6, 0.9]),
-                              p_rail=0.1, phases=0.5, p_mux=0.4)
+                              p_rail=0.1, phases=0.5, p_mux=0.4, p_moved=0.0)
     rename(rng, desc)
     if malformed is not None:
         bad_names(rng, desc, malformed)
